@@ -57,7 +57,7 @@ def gen_direct(rng, i):
         b = rng.choice(inner)
         inner.append((wg.R(0.5 * (a[0] + b[0])), wg.R(0.5 * (a[1] + b[1]))))
     nodes = list(poly) + inner
-    mode = rng.choice(['random', 'affine', 'affine', 'flat-with-bumps'])
+    mode = rng.choice(['random', 'affine', 'affine', 'flat-with-bumps', 'default-corners'])
     if mode == 'affine':
         a0 = rng.uniform(1e4, 2e5)
         gx, gy = rng.uniform(-0.1, 0.1), rng.uniform(-0.1, 0.1)
@@ -67,6 +67,12 @@ def gen_direct(rng, i):
         aff = (a0, gx, gy, cx, cy)
     elif mode == 'random':
         values = [wg.R(rng.uniform(0, 3e5)) for _ in nodes]
+        aff = None
+    elif mode == 'default-corners':
+        # what a 'max depth' list without a base value produces: unlisted corners keep the documented default DBL_MAX
+        values = [wg.R(rng.uniform(2e4, 3e5)) for _ in nodes]
+        for k in rng.sample(range(len(poly)), rng.randint(1, len(poly))):
+            values[k] = DBL_MAX
         aff = None
     else:
         base = wg.R(rng.uniform(1e4, 2e5))
@@ -124,6 +130,19 @@ def check_direct(V, c, t, plan):
             V.violation('surface:lookup-throws-inside-the-hull:%s' % kind, detail)
             continue
         v = core.fh(res[1].split(' ')[0])
+        if t['mode'] == 'default-corners':
+            # only the listed (finite) nodes are judged: the value there is the listed one, or - the known finding - rounding of the
+            # barycentric weights (~1e-16) times DBL_MAX has swamped it: |value| >= 1e270, not finite, or exactly 0 (two swamping terms
+            # of opposite sign cancel after the listed value was absorbed; seen on the unchanged tree). Anything else is new.
+            if kind == 'node' and t['values'][extra] < 1e300:
+                want = t['values'][extra]
+                if abs(v - want) <= 1e-10 * max(abs(want), 1.0):
+                    V.nontrivial(('default-corner-node', c.cid, extra))
+                elif v != v or abs(v) >= 1e270 or v == 0.0:
+                    V.violation('surface:max-depth:listed-point-next-to-DBL_MAX-default-corner', dict(detail, got=v, want=want))
+                else:
+                    V.violation('surface:value-at-a-listed-point-next-to-a-default-corner-is-neither-the-listed-value-nor-swamped-by-the-default', dict(detail, got=v, want=want))
+            continue
         if kind == 'node':
             want = t['values'][extra]
             # barycentric weights carry a rounding error of eps * |x||y| / area (coordinates are large compared with the triangle)
